@@ -3,6 +3,7 @@ pub mod c02;
 pub mod c03;
 pub mod c06;
 pub mod c07;
+pub mod c08;
 pub mod c09;
 pub mod c10;
 pub mod c11;
@@ -16,5 +17,5 @@ pub mod pool;
 use crate::sim::Check;
 
 pub fn all() -> Vec<&'static dyn Check> {
-    vec![&c01::C01, &c02::C02, &c03::C03, &padding::C04, &padding::C05, &c06::C06, &c07::C07, &c09::C09, &c10::C10, &c11::C11, &pool::C12, &pool::C13, &c14::C14, &c15::C15, &c16::C16, &c17::C17]
+    vec![&c01::C01, &c02::C02, &c03::C03, &padding::C04, &padding::C05, &c06::C06, &c07::C07, &c08::C08, &c09::C09, &c10::C10, &c11::C11, &pool::C12, &pool::C13, &c14::C14, &c15::C15, &c16::C16, &c17::C17]
 }
